@@ -153,13 +153,13 @@ func firstCrashPoints(d *Decoded, max int) []int {
 
 // ExploreDouble: see DoubleCrash.
 func ExploreDouble(h *History, d *Decoded, ops []Op, root, dir, tier, kind string) []DoubleCrash {
-	maxK1, maxJ := 3, 80
+	maxK1, maxJ := 2, 50
 	if tier == "thorough" {
 		maxK1, maxJ = 5, 150
 	}
 	if kind == "C02" {
 		// C02 explores every prefix of the run as well; of the recovery only the one of the final image
-		maxK1, maxJ = 1, 60
+		maxK1, maxJ = 1, 40
 		if tier == "thorough" {
 			maxK1, maxJ = 2, 120
 		}
